@@ -23,9 +23,13 @@ def _indent(string_, spaces):
 
 def _to_literal(value):
     try:
-        return '{}{}'.format(value.strip(), int(value, 0) > 0 and 'u' or '')
+        number = int(value, 0)
     except ValueError:
         return value
+    if number < 0:
+        """ C++ reads `-` and the digits separately: the digits alone must fit a signed type (-2^63; -0x80000000 is positive) """
+        return '({} - 1)'.format(number + 1) if number == -(1 << 63) else str(number)
+    return '{}{}'.format(value.strip(), number > 0 and 'u' or '')
 
 
 def _optional_flag_padding(member):
